@@ -155,6 +155,7 @@ pub enum Slice {
 
 pub fn worker(check: &dyn Check, verif_seed: u64, thorough: bool, w: u64, nw: u64, n: u64, slice: Slice) {
     sim::install_panic_hook();
+    sim::watchdog::start(sim::watchdog::WORKER);
     set_rlimit_as(1 << 30);
     let stdout = std::io::stdout();
     let slice_len = match &slice {
@@ -176,8 +177,11 @@ pub fn worker(check: &dyn Check, verif_seed: u64, thorough: bool, w: u64, nw: u6
             for l in std::io::BufReader::new(out).lines().map_while(Result::ok) {
                 let _ = writeln!(o, "{}", l);
             }
+            let died = !c.wait().map(|s| s.success()).unwrap_or(false);
+            if died {
+                let _ = writeln!(o, "{{\"died\":{}}}", idx);
+            }
             let _ = o.flush();
-            let _ = c.wait();
         }
         return;
     }
@@ -194,6 +198,7 @@ pub fn worker(check: &dyn Check, verif_seed: u64, thorough: bool, w: u64, nw: u6
     let mut k = 0u64;
     for idx in idxs {
         // announce first, so that an abort() is attributable to this index
+        sim::watchdog::IDX.store(idx, std::sync::atomic::Ordering::SeqCst);
         {
             let mut o = stdout.lock();
             let _ = writeln!(o, "{{\"start\":{}}}", idx);
@@ -239,6 +244,7 @@ fn exec(check: &dyn Check, plan: &Value, rs: u64, ds: Option<&[Decision]>, trace
 
 /// Minimise a failing run and write the replay file. Returns the path.
 pub fn minimize(check: &dyn Check, verif_seed: u64, idx: u64, thorough: bool, clause: &str, sig: &str, out_path: &str) -> Result<(), String> {
+    sim::watchdog::start(sim::watchdog::MINIMISING);
     let rs = run_seed(verif_seed, check.id(), idx);
     let plan0 = check.gen_plan(rs, idx, thorough);
     let t0 = Instant::now();
@@ -347,6 +353,7 @@ pub fn minimize(check: &dyn Check, verif_seed: u64, idx: u64, thorough: bool, cl
 /// run is clean, 2 if something else happens.
 pub fn replay(checks: &[&'static dyn Check], path: &str) -> i32 {
     sim::install_panic_hook();
+    sim::watchdog::start(sim::watchdog::REPLAYING);
     set_rlimit_as(1 << 30);
     let Ok(s) = std::fs::read_to_string(path) else {
         eprintln!("cannot read {}", path);
@@ -361,6 +368,7 @@ pub fn replay(checks: &[&'static dyn Check], path: &str) -> i32 {
         eprintln!("unknown check {}", id);
         return 2;
     };
+    *sim::watchdog::REPLAY.lock().unwrap() = Some((id.to_string(), path.to_string()));
     let rs = u64::from_str_radix(f["run_seed"].as_str().unwrap_or("0"), 16).unwrap_or(0);
     let ds = if f["decisions"].is_null() { None } else { Some(decisions_from_json(&f["decisions"])) };
     let (vs, out) = exec(*check, &f["plan"], rs, ds.as_deref(), true);
@@ -409,6 +417,9 @@ struct Agg {
     hash_step: u64,
     /// per worker: (last index announced, last index finished)
     progress: Vec<(Option<u64>, Option<u64>)>,
+    /// runs the wall-clock watchdog gave up on / runs whose own process died (one_per_process checks)
+    hung: HashSet<u64>,
+    died: Vec<u64>,
 }
 
 fn self_exe() -> std::path::PathBuf {
@@ -435,6 +446,14 @@ fn absorb(agg: &mut Agg, known: &[Known], prop: &str, w: usize, line: &Value) {
         if w < agg.progress.len() {
             agg.progress[w].0 = Some(i);
         }
+        return;
+    }
+    if let Some(i) = line["hang"].as_u64() {
+        agg.hung.insert(i);
+        return;
+    }
+    if let Some(i) = line["died"].as_u64() {
+        agg.died.push(i);
         return;
     }
     if let Some(a) = line.get("agg") {
@@ -516,6 +535,8 @@ pub fn check_cmd(check: &'static dyn Check, thorough: bool) -> i32 {
         hashes: BTreeMap::new(),
         hash_step: if std::env::var("VERIF_DUMP_HASHES").is_ok() { 1 } else { std::cmp::max(1, n / 512) },
         progress: vec![(None, None); nw as usize],
+        hung: HashSet::new(),
+        died: Vec::new(),
     };
     println!("[{}] {} tier: {} runs on {} workers, VERIF_SEED={}", prop, if thorough { "thorough" } else { "quick" }, n, nw, vs);
     // workers stream one line per run; reader threads forward them, the main thread aggregates as they come
@@ -542,8 +563,22 @@ pub fn check_cmd(check: &'static dyn Check, thorough: bool) -> i32 {
     let mut crashed: Vec<u64> = Vec::new();
     let mut stopped_after_crashes = false;
     let mut live = nw as usize;
+    // once violations are on the table the verdict is settled; violating runs can be slow (a spin costs the
+    // whole spin budget), so the batch is cut short: after 300 violating runs, or after the tier's wall
+    // budget if there is at least one. A batch without violations is never cut.
+    let wall_budget = std::time::Duration::from_secs(if thorough { 1_500 } else { 150 });
+    let mut cut_short = false;
     while live > 0 {
         let Ok((w, msg)) = rx.recv() else { break };
+        let nv = agg.viol_runs.len() + crashed.len();
+        if nv >= 300 || (nv >= 1 && t0.elapsed() > wall_budget) {
+            cut_short = true;
+            for c in children.iter_mut().flatten() {
+                let _ = c.kill();
+                let _ = c.wait();
+            }
+            break;
+        }
         match msg {
             Some(v) => absorb(&mut agg, &known, prop, w, &v),
             None => {
@@ -563,7 +598,7 @@ pub fn check_cmd(check: &'static dyn Check, thorough: bool) -> i32 {
                         let more = (0..n).any(|x| x % nw == w as u64 && x > s);
                         if !more {
                             live -= 1;
-                        } else if crashed.len() >= 10 {
+                        } else if crashed.len() >= 10 || agg.hung.len() >= 3 {
                             // enough evidence: the violation is reported, the rest of the slice is not explored
                             stopped_after_crashes = true;
                             live -= 1;
@@ -582,8 +617,15 @@ pub fn check_cmd(check: &'static dyn Check, thorough: bool) -> i32 {
         }
     }
     drop(tx);
+    crashed.extend(agg.died.iter().copied());
+    crashed.sort_unstable();
+    crashed.dedup();
     for idx in &crashed {
-        let v = Viol { clause: "abort".into(), sig: "process-abort".into(), detail: "the worker process died (abort / allocation failure / kill) during this run".into() };
+        let v = if agg.hung.contains(idx) {
+            Viol { clause: "hang".into(), sig: "run-does-not-terminate".into(), detail: format!("the run was still executing after {} s of wall time (a loop that never returns to the scheduler)", sim::watchdog::limit_s()) }
+        } else {
+            Viol { clause: "abort".into(), sig: "process-abort".into(), detail: "the worker process died (abort / allocation failure / kill) during this run".into() }
+        };
         if is_known(&known, prop, &v) {
             *agg.known_hits.entry((v.clause.clone(), v.sig.clone())).or_insert(0) += 1;
         } else {
@@ -629,7 +671,10 @@ pub fn check_cmd(check: &'static dyn Check, thorough: bool) -> i32 {
         }
         let idx = *idxs.iter().min().unwrap();
         let path = format!("{}/replays/{}-{}-{}.json", verif_dir(), prop, vs, idx);
-        let st = Command::new(self_exe())
+        let st = if clause == "hang" {
+            Err(std::io::Error::other("not minimised"))
+        } else {
+            Command::new(self_exe())
             .arg("minimize")
             .arg(prop)
             .arg(if thorough { "thorough" } else { "quick" })
@@ -638,7 +683,8 @@ pub fn check_cmd(check: &'static dyn Check, thorough: bool) -> i32 {
             .arg(clause)
             .arg(sig)
             .arg(&path)
-            .status();
+            .status()
+        };
         let ok = st.map(|s| s.success()).unwrap_or(false);
         if !ok {
             // un-minimised replay file: plan + hash decisions
@@ -689,6 +735,7 @@ pub fn check_cmd(check: &'static dyn Check, thorough: bool) -> i32 {
             "components_stub": check.stub_components(),
             "known_findings_observed": agg.known_hits.iter().map(|((c, s), n)| json!({"clause": c, "signature": s, "runs": n})).collect::<Vec<_>>(),
             "exhaustive": false,
+            "cut_short_after_violations": cut_short,
         },
         "assumptions": check.assumptions(),
         "wall_s": wall,
@@ -720,7 +767,7 @@ pub fn check_cmd(check: &'static dyn Check, thorough: bool) -> i32 {
         }
         return 2;
     }
-    if agg.evaluations + (crashed.len() as u64) < n && !stopped_after_crashes {
+    if agg.evaluations + (crashed.len() as u64) < n && !stopped_after_crashes && !cut_short {
         eprintln!("harness error: only {} of {} runs reported", agg.evaluations, n);
         return 2;
     }
